@@ -69,10 +69,18 @@ def extract(repo):
     if k < 0:
         raise ValueError("end of pre-check block not found")
     pre = pre[:k]
-    m = re.search(r"if\s*\(\s*Nullable\(\)\s*\)\s*\{\s*_error\.severity\(\s*(SEVERITY_\w+)\s*\)\s*;\s*\}\s*else\s+if\s*\(\s*!strict\s*\)\s*\{", pre)
+    # `if( Nullable() ) { [ _error.severity( X ); ] } else if( !strict [ && c == '$' ] ) {`
+    m = re.search(r"if\s*\(\s*Nullable\(\)\s*\)\s*\{\s*(?:_error\.severity\(\s*(SEVERITY_\w+)\s*\)\s*;\s*)?\}\s*"
+                  r"else\s+if\s*\(\s*!strict\s*(&&\s*c\s*==\s*'(.)'\s*)?\)\s*\{", pre)
     if not m:
-        raise ValueError("`if( Nullable() ) ... else if( !strict )` not found")
-    sev_nullable = m.group(1)
+        raise ValueError("`if( Nullable() ) ... else if( !strict ... )` not found")
+    sev_nullable = m.group(1)          # None: the severity stays what CheckRemainingInput found after the `$`
+    lenient_char = m.group(3)          # None: every null character is substituted; else only this one
+    # the `$` (and only it) is consumed and followed by CheckRemainingInput
+    dm = re.search(r"if\s*\(\s*c\s*==\s*'(.)'\s*\)\s*\{\s*in\.ignore\(\)\s*;\s*CheckRemainingInput\(", pre)
+    if not dm:
+        raise ValueError("consumption of the null character not found")
+    consumed_char = dm.group(1)
     lenient = pre[m.end():]
     cases, errvar = [], "err"
     for cm in re.finditer(r"case\s+(\w+)_TYPE\s*:\s*\{\s*(\w+)\s*=\s*\"((?:[^\"\\]|\\.)*)\"\s*;\s*([^}]*?)break\s*;\s*\}", lenient):
@@ -166,7 +174,12 @@ def extract(repo):
     L.append("/-- lenient branch: (base type, filler string, reader / \"assign\", delimiter list or assigned text) -/")
     L.append("def fillerCases : List (String × String × String × String) := [" +
              ", ".join(f"({_lean_str(k)}, {_lean_str(f)}, {_lean_str(r)}, {_lean_str(d)})" for k, f, r, d in cases) + "]")
-    L.append(f"def sevNullable : Sev := {_sev(sev_nullable)}")
+    L.append("/-- the null character that is consumed (followed by CheckRemainingInput); the others are delimiters left in place -/")
+    L.append(f"def consumedNullChar : Char := '{consumed_char}'")
+    L.append("/-- severity assigned in the Nullable() branch; `none` = left as CheckRemainingInput found it after the null character -/")
+    L.append(f"def sevNullableOverride : Option Sev := {'none' if sev_nullable is None else '(some ' + _sev(sev_nullable) + ')'}")
+    L.append("/-- lenient substitution only when the value is this character; `none` = for every null character (also an absent value) -/")
+    L.append("def lenientOnlyFor : Option Char := " + ("none" if lenient_char is None else f"(some '{lenient_char}')"))
     L.append(f"def sevFillerFailThreshold : Sev := {_sev(fail_thr)}")
     L.append(f"def sevFillerFail : Sev := {_sev(sev_fail)}")
     L.append(f"def sevFillerOk : Sev := {_sev(sev_ok)}")
